@@ -970,12 +970,18 @@ def single_literal(orig):
     return k, texts, isinstance(v, list)
 
 
-def _find_compiled(conn, ns, orig):
+def _find_compiled(conn, ns, orig, before=None):
     if isinstance(orig, CIMClass):
         return conn.classes[ns][orig.classname]
     if isinstance(orig, CIMQualifierDeclaration):
         return conn.qualifiers[ns][orig.name]
     insts = conn.instances.get(ns, [])
+    if before is not None:
+        # session: the namespace holds the instances of earlier steps
+        if len(insts) != before + 1:
+            return "UNCLASSIFIED: %d instances compiled" % (len(insts) -
+                                                            before)
+        return insts[-1]
     if len(insts) != 1:
         return "UNCLASSIFIED: %d instances compiled" % len(insts)
     return insts[0]
@@ -1026,7 +1032,9 @@ def run_obj(spec, comp, sess=None, step=""):
                                          for x in lit[1]]),
                      "out": _region(text, q, lit[2]), "flat": flat,
                      "gotok": False, "got": []}
+    before = None
     if sess is not None:
+        before = len(sess.conn.instances.get(sess.ns, []))
         ok, ns, conn, err = sess.compile(text)
     else:
         ok, ns, conn, err = comp.compile(text, list(b.qdecls.values()),
@@ -1035,7 +1043,7 @@ def run_obj(spec, comp, sess=None, step=""):
     if not ok:
         info["error"] = err
         return ev, info
-    cobj = _find_compiled(conn, ns, orig)
+    cobj = _find_compiled(conn, ns, orig, before)
     info["compiled"] = repr(cobj)[:1500]
     ev["comp"] = elems_of(cobj, declflv)
     if ev["lit"]["has"] and ev["lit"]["clause"]:
@@ -1060,6 +1068,7 @@ class Session:
         self.conn = MOFWBEMConnection()
         self.mc = MOFCompiler(self.conn, verbose=False, log_func=None)
         self.dead = False
+        self.error = ""
 
     def prime(self, qdecl):
         self.conn.SetQualifier(qdecl.copy(), namespace=self.ns)
@@ -1069,9 +1078,26 @@ class Session:
             self.mc.compile_string(text, self.ns)
         except Exception as exc:  # noqa: any rejection counts
             self.dead = True
-            return False, self.ns, self.conn, "%s: %s" % (
-                type(exc).__name__, str(exc)[:300])
+            self.error = "%s: %s" % (type(exc).__name__, str(exc)[:300])
+            return False, self.ns, self.conn, self.error
         return True, self.ns, self.conn, ""
+
+
+def spoilt_embedded_text(spec, kind):
+    """tomof() text of an instance with an embedded instance value whose
+    NESTED compile fails: embdep = the embedded instance sets a property its
+    class does not declare; embsyntax = grammar error inside the nested text"""
+    orig = Build(spec).build()
+    pname = spec["props"][0]["name"]
+    if kind == "embdep":
+        orig.properties[pname].value.properties["SessUndeclared"] = \
+            CIMProperty("SessUndeclared", pywbem.Uint8(1))
+        return orig.tomof(spec["maxline"])
+    text = orig.tomof(100000)           # no folding
+    i = text.find("instance of", text.find("instance of") + 1)
+    if i < 0:
+        raise RuntimeError("no nested instance text in %r" % text)
+    return text[:i] + "instance off" + text[i + len("instance of"):]
 
 
 def run_session(steps):
@@ -1080,7 +1106,31 @@ def run_session(steps):
     requirement machine's verdict ends there as well)"""
     sess = Session()
     events, infos = [], []
+    # what the instance texts of the history need (their classes, the
+    # EmbeddedInstance declaration) is put into the repository BEFORE the
+    # compiler sees anything - nothing changes behind a running compiler
+    seen = set()
     for st in steps:
+        if st["step"] in ("inst", "fail") and st.get("spec"):
+            b = Build(st["spec"])
+            b.build()
+            for name, qd in b.qdecls.items():
+                if name not in seen:
+                    seen.add(name)
+                    sess.prime(qd)
+            for c in b.classes:
+                sess.conn.CreateClass(c.copy(), namespace=sess.ns)
+    for st in steps:
+        if st["step"] == "fail":
+            text = st.get("text") or spoilt_embedded_text(st["spec"],
+                                                          st["kind"])
+            rejected = not sess.compile(text)[0]
+            err = sess.error
+            sess.dead = False
+            events.append({"op": "fail", "sess": "fail", "kind": st["kind"],
+                           "rejected": rejected})
+            infos.append({"orig": None, "text": text, "error": err})
+            continue
         if st["step"] == "prime":
             qd = Build(st["spec"]).build()
             sess.prime(qd)
